@@ -6,6 +6,7 @@ import sys
 import tempfile
 import time
 import types
+import zlib
 
 PID = "C46"
 LEAN_MODULES = ["Pkgcore.Props.C46"]
@@ -16,6 +17,10 @@ OBLIGATIONS = [
     "Pkgcore.C46.left_exactly",
     "Pkgcore.C46.removed_exactly",
     "Pkgcore.C46.no_targeted_package_removes_nothing",
+    "Pkgcore.C46.needed_files_survive",
+    "Pkgcore.C46.run_removes_only_selected",
+    "Pkgcore.C46.unreadable_metadata_removes_nothing",
+    "Pkgcore.C46.unreadable_distfiles_never_read",
 ]
 TRUSTED = [
     "which packages the target / exclusion restrictions match and which files the file-name patterns guessed from the targeted packages select are "
@@ -27,9 +32,13 @@ TRUSTED = [
 ]
 ASSUMPTIONS = [
     "every os.remove succeeds (the distdir is writable); installed packages are given by their distfiles attribute",
+    "what a package with unreadable metadata would need is unknowable: 'needed' counts the readable packages (the model shows the run stops whenever such a "
+    "package is looked at, and never reads its distfiles otherwise)",
 ]
-RULE = ("real scratch ebuild repositories (6-9 packages over related names foo / foo-bar / libfoo / baz, SRC_URI with shared and per-version files, "
-        "RESTRICT=fetch on some), a random installed set, a real scratch distdir holding current, stale, shared and unrelated files with random sizes "
+RULE = ("real scratch ebuild repositories (6-9 packages over related names foo / foo-bar / libfoo / baz, SRC_URI with shared and per-version files written as "
+        "plain URIs, mirror:// URIs, bare names, `uri -> name` renames and nested USE-conditional groups, ebuilds that fetch nothing, "
+        "RESTRICT=fetch on some; every third repository holds one or two ebuilds whose SRC_URI cannot be parsed — unbalanced parenthesis, dangling `->`, "
+        "`||` group — so that `.distfiles` raises MetadataException), a random installed set, a real scratch distdir holding current, stale, shared and unrelated files with random sizes "
         "and ages, and random option combinations: targets (names, globs, versioned atoms, targets matching no package, targets excluded again), --installed/--exists/--fetch-restricted, exclusion patterns, "
         "--modified, --size; non-trivial = at least one file removed while at least one selected file is kept because it is needed")
 
@@ -37,7 +46,8 @@ NAMES = ["foo", "foo-bar", "libfoo", "baz", "qux"]
 EXT = [".tar.gz", ".tar.xz", ".zip"]
 
 
-def gen_repo(rng):
+def gen_repo(rng, broken=0):
+    """packages with their intended distfiles; `broken` of them get a SRC_URI that cannot be parsed"""
     pkgs = []
     for name in rng.sample(NAMES, rng.choice([3, 4, 5])):
         ext = rng.choice(EXT)
@@ -50,13 +60,51 @@ def gen_repo(rng):
                 files.append(f"{name}-{ver}-patches.tar.xz")
             if rng.random() < 0.15:
                 files.append("common-icons.zip")
-            pkgs.append({"cpv": f"cat/{name}-{ver}", "name": name, "files": files, "fetch": rng.random() < 0.2})
+            if rng.random() < 0.06:
+                files = []                                   # an ebuild that fetches nothing
+            pkgs.append({"cpv": f"cat/{name}-{ver}", "name": name, "files": files, "fetch": rng.random() < 0.2, "broken": None})
+    for p in rng.sample(pkgs, min(broken, len(pkgs))):
+        p["broken"] = rng.choice(["unbalanced", "dangling-arrow", "any-of"])
+        if not p["files"]:
+            p["files"] = [f"{p['name']}-x.tar.gz"]
+    for p in pkgs:
+        p["src_uri"] = render_src_uri(rng, p)
     return pkgs
+
+
+def render_src_uri(rng, p):
+    """SRC_URI text for the intended files: plain URIs, bare file names (fetch-restricted style), `uri -> name` renames,
+    USE-conditional groups (the raw package's distfiles ignore USE); or one of the unparsable forms"""
+    def one(f):
+        k = rng.random()
+        if k < 0.6:
+            return "http://example.org/" + f
+        if k < 0.75:
+            return f"http://example.org/dl/{zlib.crc32(f.encode()) % 9973}.bin -> {f}"
+        if k < 0.85 and p["fetch"]:
+            return f
+        return "mirror://gentoo/" + f
+    toks = [one(f) for f in p["files"]]
+    if len(toks) > 1 and rng.random() < 0.35:
+        cut = rng.randint(1, len(toks) - 1)
+        inner = toks[cut:]
+        if len(inner) > 1 and rng.random() < 0.4:
+            inner = inner[:1] + ["!doc? ( " + " ".join(inner[1:]) + " )"]
+        toks = toks[:cut] + ["ssl? ( " + " ".join(inner) + " )"]
+    text = " ".join(toks)
+    if p["broken"] == "unbalanced":
+        text = "ssl? ( " + text
+    elif p["broken"] == "dangling-arrow":
+        text = text + " http://example.org/dl/latest.bin ->"
+    elif p["broken"] == "any-of":
+        text = "|| ( " + text + " )"
+    return text
 
 
 def run(ctx):
     from pkgcore.pytest.plugin import EbuildRepo
     from pkgcore.scripts import pclean
+    from pkgcore.package.errors import MetadataException
     from snakeoil.sequences import iflatten_instance
 
     rng = ctx.rng
@@ -78,26 +126,32 @@ def run(ctx):
             return getattr(self._real, n)
 
     try:
-        for ri in range(ctx.n(2, 30)):
-            pkgs = gen_repo(rng)
+        for ri in range(ctx.n(3, 30)):
+            # every third repository has one or two packages whose SRC_URI cannot be parsed
+            pkgs = gen_repo(rng, broken=rng.choice([1, 1, 2]) if ri % 3 == 1 else 0)
             tree = EbuildRepo(os.path.join(scratch, f"repo{ri}"), repo_id="test", arches=("x86",))
             for p in pkgs:
                 extra = {"restrict": "fetch"} if p["fetch"] else {}
-                tree.create_ebuild(p["cpv"], src_uri=" ".join("http://example.org/" + f for f in p["files"]), **extra)
+                tree.create_ebuild(p["cpv"], src_uri=p["src_uri"], iuse="ssl doc", **extra)
             tree.sync()
             repo = tree._repo
             real = {x.cpvstr: x for x in repo}
             for p in pkgs:
                 rp = real[p["cpv"]]
-                got = sorted(iflatten_instance(getattr(rp, "_raw_pkg", rp).distfiles))
-                if got != sorted(p["files"]) or ("fetch" in rp.restrict) != p["fetch"]:
-                    ctx.mismatch({"pkg": p["cpv"]}, f"scratch repo does not show the generated metadata: {got}, {rp.restrict}")
+                try:
+                    got = sorted(iflatten_instance(getattr(rp, "_raw_pkg", rp).distfiles))
+                except MetadataException:
+                    got = "MetadataException"
+                want = "MetadataException" if p["broken"] else sorted(set(p["files"]))
+                if got != want or ("fetch" in rp.restrict) != p["fetch"]:
+                    ctx.mismatch({"pkg": p["cpv"], "src_uri": p["src_uri"]}, f"scratch repo does not show the generated metadata: {got}, {rp.restrict}")
                     return
+            ctx.count("repo_with_unreadable_metadata" if any(p["broken"] for p in pkgs) else "repo_healthy")
             allfiles = sorted({f for p in pkgs for f in p["files"]})
             names = sorted({p["name"] for p in pkgs})
 
             cases, reqs = [], []
-            for ci in range(ctx.n(330, 500)):
+            for ci in range(ctx.n(160, 300) if ri % 3 == 1 else ctx.n(300, 500)):
                 # ---- the scenario
                 installed = []
                 for _ in range(rng.choice([0, 1, 2, 3])):
@@ -131,7 +185,7 @@ def run(ctx):
                 o = {"installed": rng.random() < 0.35, "exists": rng.random() < 0.4, "fetch_restricted": rng.random() < 0.25,
                      "modified": rng.choice([None, None, None, None, "5d", "30d", "1y"]), "size": rng.choice([None, None, None, None, "1K", "11B", "4K"]),
                      "pretend": rng.random() < 0.05}
-                scen = {"repo": [(p["cpv"], p["files"], p["fetch"]) for p in pkgs], "installed": installed, "files": files, "targets": targets,
+                scen = {"repo": [(p["cpv"], p["files"], p["fetch"]) + ((("unparsable SRC_URI: " + p["src_uri"]),) if p["broken"] else ()) for p in pkgs], "installed": installed, "files": files, "targets": targets,
                         "excludes": excludes, "opts": o}
 
                 # ---- the real run
@@ -175,16 +229,24 @@ def run(ctx):
                     ns0.restrict = ns.restrict
                     ns0.exclude_restrict = None
                     ns0.exclude_installed = ns0.exclude_exists = ns0.exclude_fetch_restricted = False
-                    pclean._dist_validate_args(None, ns0)
-                    selected = [os.path.basename(t) for _, t in ns0.remove]
-                    # the run under test
-                    pclean._dist_validate_args(None, ns)
-                    old_stdout = sys.stdout
-                    sys.stdout = TtyStdout(old_stdout)
                     try:
-                        ret = pclean._remove(ns, FakeOut(), FakeOut())
-                    finally:
-                        sys.stdout = old_stdout
+                        pclean._dist_validate_args(None, ns0)
+                        selected = [os.path.basename(t) for _, t in ns0.remove]
+                    except MetadataException:
+                        selected = []           # a targeted package cannot be read: the run under test cannot get past it either
+                    # the run under test; a MetadataException (unreadable package) ends the command before _remove
+                    aborted, ret = False, 0
+                    try:
+                        pclean._dist_validate_args(None, ns)
+                    except MetadataException:
+                        aborted = True
+                    if not aborted:
+                        old_stdout = sys.stdout
+                        sys.stdout = TtyStdout(old_stdout)
+                        try:
+                            ret = pclean._remove(ns, FakeOut(), FakeOut())
+                        finally:
+                            sys.stdout = old_stdout
                     left = sorted(os.listdir(distdir))
                 except Exception as e:
                     ctx.violation(scen, f"pclean dist raised {type(e).__name__}: {e}")
@@ -192,16 +254,17 @@ def run(ctx):
                 finally:
                     shutil.rmtree(distdir, ignore_errors=True)
                 removed = sorted(set(f["name"] for f in files) - set(left))
-                cases.append((scen, selected, has_restrict, removed, left, ret))
+                cases.append((scen, selected, has_restrict, removed, left, ret, aborted))
                 reqs.append({"cmd": "c46.clean",
                              "files": [{"name": f["name"], "mtime": f["mtime"], "size": f["size"]} for f in files],
                              "selected": selected, "installed": inst_flat,
-                             "repo": [{"distfiles": p["files"], "fetch": p["fetch"], "targeted": targeted[p["cpv"]], "excluded": excluded[p["cpv"]]} for p in pkgs],
+                             "repo": [{"distfiles": p["files"], "fetch": p["fetch"], "targeted": targeted[p["cpv"]], "excluded": excluded[p["cpv"]],
+                                       "broken": bool(p["broken"])} for p in pkgs],
                              "opts": {"installed": o["installed"], "exists": o["exists"], "fetch_restricted": o["fetch_restricted"],
                                       "has_restrict": has_restrict, "has_exclude": has_exclude,
                                       "modified": None if ns.modified is None else math.ceil(ns.modified),
                                       "size": ns.size}})
-            for (scen, selected, has_restrict, removed, left, ret), req, m in zip(cases, reqs, ctx.model(reqs)):
+            for (scen, selected, has_restrict, removed, left, ret, aborted), req, m in zip(cases, reqs, ctx.model(reqs)):
                 o = scen["opts"]
                 if m == "bad-op":
                     ctx.mismatch(scen, "driver rejected the request")
@@ -210,12 +273,14 @@ def run(ctx):
                 needed = set()
                 if o["installed"]:
                     needed |= {f for fs in req["installed"] for f in fs}
+                # (what a package with unreadable metadata needs is unknowable: only the readable ones count)
+                readable = [p for p in req["repo"] if not p["broken"]]
                 if o["exists"]:
-                    needed |= {f for p in req["repo"] for f in p["distfiles"]}
+                    needed |= {f for p in readable for f in p["distfiles"]}
                 if o["fetch_restricted"]:
-                    needed |= {f for p in req["repo"] if p["fetch"] for f in p["distfiles"]}
+                    needed |= {f for p in readable if p["fetch"] for f in p["distfiles"]}
                 if req["opts"]["has_exclude"]:
-                    needed |= {f for p in req["repo"] if p["excluded"] for f in p["distfiles"]}
+                    needed |= {f for p in readable if p["excluded"] for f in p["distfiles"]}
                 # with a target restriction only the files its patterns select may go, and none when it matches no package
                 any_targeted = any(p["targeted"] for p in req["repo"])
                 sel = (set(selected) if any_targeted else set()) if has_restrict else set(fileinfo)
@@ -225,6 +290,12 @@ def run(ctx):
                 ctx.count("opts_" + "".join(c for c, f in zip("IEfTXms", [o["installed"], o["exists"], o["fetch_restricted"], scen["targets"], scen["excludes"],
                                                                               o["modified"], o["size"]]) if f))
                 ctx.count("removed_%d" % min(len(removed), 5))
+                if aborted:
+                    ctx.count("stopped_by_unreadable_metadata")
+                    if removed:
+                        ctx.violation(scen, f"the command failed with MetadataException and yet removed {removed}")
+                elif any(p["broken"] for p in req["repo"]):
+                    ctx.count("unreadable_package_not_looked_at")
                 if o["pretend"]:
                     ctx.count("pretend")
                     if removed:
@@ -242,8 +313,9 @@ def run(ctx):
                 unf = [f for f in removed if (thr_m is not None and not fileinfo[f]["mtime"] < thr_m) or (thr_s is not None and not fileinfo[f]["size"] < thr_s)]
                 if unf:
                     ctx.violation(scen, f"removed files that do not pass the file filters: {unf}")
-                if removed != m["removed"] or left != sorted(m["left"]):
-                    ctx.mismatch(scen, f"pclean removed {removed} (left {left}); the Lean model removes {m['removed']} (left {sorted(m['left'])})")
+                if aborted != m["aborted"] or removed != m["removed"] or left != sorted(m["left"]):
+                    ctx.mismatch(scen, f"pclean {'stopped with MetadataException' if aborted else 'ran'}, removed {removed} (left {left}); the Lean model "
+                                       f"{'stops' if m['aborted'] else 'runs'}, removes {m['removed']} (left {sorted(m['left'])})")
     finally:
         shutil.rmtree(scratch, ignore_errors=True)
 
@@ -251,7 +323,8 @@ def run(ctx):
 LEVEL_TEXT = ("Kernel-checked Lean 4 theorems about a model of the set algebra of pclean dist (_dist_validate_args, the file filters, _remove): for every "
               "distdir, repository, installed set and option combination, only files selected by the targets that pass the filters are removed, and no file "
               "needed by an installed package (--installed), by any package in the repositories (--exists, with or without targets), by a fetch-restricted "
-              "package (--fetch-restricted) or by an excluded package is removed; what is left is exactly the rest. Target selection and restriction "
+              "package (--fetch-restricted) or by an excluded package is removed; what is left is exactly the rest; a repository package whose metadata cannot be read stops the command before anything is removed whenever one "
+              "of its loops looks at it, and is never read otherwise, so needed files survive in every repository (needed_files_survive). Target selection and restriction "
               "matching are parameters, instantiated from the real code; the real functions run on real scratch repositories and a real scratch distdir.")
 LEVEL_NOTE = ("Trusted: Lean kernel; target file-name guessing and restriction matching as parameters (taken from the real code each run); the argparse "
               "wiring is bypassed with a hand-made namespace; os primitives.")
